@@ -818,6 +818,8 @@ def run(tier):
     # thread's flush request is processed while their statements sit in the backend's buffers, then the backend is
     # polled until everything is empty (what _exit does); monitor = every accepted statement written once, in order
     drv = driver_phase(ck, tier)
+    from be_check import mbe_abstraction_search
+    mbe_abstraction_search(ck, broken)
     if broken and not ck.violations:
         ck.violation('no-failing-input-found', '; '.join(broken))
     walls = sorted(o['wall'] for o in obs)
